@@ -107,8 +107,9 @@ def check_c03(ctx):
     ctx.cov["distinct_nontrivial"] = len({json.dumps(c, sort_keys=True) for c in cases})
     ctx.cov["samples"] = [traces[0], traces[len(traces) // 2]]
     # growth of the specification: the high-level client that wraps this handshake
-    from harness.props import clientsession
-    clientsession.growth(ctx, quick)
+    if os.environ.get("VERIF_SKIP_GROWTH") != "1":          # development switch of harness/mutate.py
+        from harness.props import clientsession
+        clientsession.growth(ctx, quick)
 
 
 def check_c04(ctx):
